@@ -133,8 +133,9 @@ TRUSTED_BASE = [
     "extraction (ExtrOcamlBasic only; no Extract Constant), OCaml 4.13, ocaml/driver.ml",
     "correspondence machinery: Rust harnesses, this Python orchestrator, rustc/cargo, the host CPU, Miri",
     "tools/srcfacts (syn-based extractor) for the regenerated gen/*.v files: facts, ladders, dispatch tables, memory signature",
-    "the source-to-AST translators rustlite.rs (portable.rs, internal.rs) and veclite.rs (SIMD kernels), the RustLite / VecLite "
-    "interpreters (the meaning given to the Rust fragment) and the primitive tables mapping intrinsic names to model functions",
+    "the source-to-AST translators rustlite.rs (portable.rs, internal.rs, and the whole of wasm.rs) and veclite.rs (SIMD kernels), the "
+    "RustLite / VecLite interpreters (the meaning given to the Rust fragment, incl. the panics of each build profile) and the primitive "
+    "tables mapping intrinsic names to model functions (for wasm.rs: RustLite.vprim / sprim, the 20 wasm32 instructions the file uses)",
 ]
 
 
